@@ -562,8 +562,11 @@ func Run(r *ev.Run) {
 	}
 	// several poison values per process with the stock script callback configured (after the last rotation: pool holds current and rotated keys)
 	scriptPhase(r, stores, scriptEnvs, cols[:10], trs)
+	// generated poison-key histories incl. destruction and key states (keyhistory.go)
+	keyHistoryPhase(r, stores[0].foreign, cols[:10], trs)
 	finishGuards(r)
 	scriptGuards(r)
+	keyHistoryGuards(r)
 	if ProxyLayer != nil {
 		ProxyLayer(r)
 	}
